@@ -436,11 +436,15 @@ func check16(r *core.Run) {
 	r.Rule = "Text part as C02 but comparing positions: the file:line:col of every statement of every accepted text, and the leading file:line:col of the first error for every rejected text with exactly one token-level fault (invalid escape, unterminated string or comment, the first token the grammar does not allow; a `+` not followed by a quoted string is disputable and skipped; end-of-input reports are outside the claim). " + r.Rule
 	Semantic(r)
 	Resolve(r)
+	Files(r)
 }
 
 // semantic is filled in by the Ast family part of C16 (positions in errors
 // from building and resolving a module).
 var Semantic = func(r *core.Run) {}
+
+// Files is filled in by the registry family: the file name in the positions of modules found through the search path.
+var Files = func(r *core.Run) {}
 
 // Resolve is filled in by the hazard family: positions in errors from resolving.
 var Resolve = func(r *core.Run) {}
